@@ -757,8 +757,11 @@ template <typename T> void Table::append_row(const T& new_values) {
   size_t cur_size = loop.values.size();
   loop.values.resize(cur_size + loop.width(), ".");
   int n = 0;
-  for (const auto& value : new_values)
-    loop.values[cur_size + positions[n++]] = value;
+  for (const auto& value : new_values) {
+    int pos = positions[n++];
+    if (pos >= 0)  // absent optional column (?tag) has no cell to write to
+      loop.values[cur_size + pos] = value;
+  }
 }
 
 inline void Table::remove_rows(int start, int end) {
